@@ -22,11 +22,9 @@ def as_set(v):
 
 
 def selected(m, platforms):
-    """H: the platforms argument if truthy, else all platforms of the map"""
+    """H: the platforms argument as given (an empty selection stays empty); all platforms of the map only when it is absent"""
     if isinstance(platforms, VOpt):
-        inner = platforms.get()
-        truthy = z3.And(z3.Not(platforms.is_none()), z3.Not(inner.is_empty()))
-        return z3.If(truthy, inner.t, S.all_platforms(m).t)
+        return z3.If(z3.Not(platforms.is_none()), platforms.get().t, S.all_platforms(m).t)
     return platforms.t
 
 
@@ -41,7 +39,7 @@ c.param("setmap", SetMap).param("platforms", Opt(PSet)).result(FLOAT)
 
 @c.ensures
 def _(A, R):
-    return [("result==100*Used/Tot,NaN-iff-Tot==0", R.result.t == S.cov(A.setmap, selected(A.setmap, A.platforms)))]
+    return [("result==100*Used/Tot,NaN-iff-no-lines-or-no-platforms", R.result.t == S.cov(A.setmap, selected(A.setmap, A.platforms)))]
 
 
 c.loop(0, LoopSpec(lambda L: [
@@ -73,17 +71,16 @@ d.param("setmap", SetMap).param("p1", P).param("p2", P).result(FLOAT)
 
 @d.ensures
 def _(A, R):
-    return [("result==Xor/Union,NaN-iff-Union==0", R.result.t == S.dist(A.setmap, A.p1.t, A.p2.t))]
+    return [("result==Xor/Union (0 for two empty line sets), NaN-iff-no-lines", R.result.t == S.dist(A.setmap, A.p1.t, A.p2.t))]
 
 
 d.loop(0, LoopSpec(lambda L: [
     ("total==Un(seen)", L.total.t == S.Un()(L.args.setmap.valarr, L.args.p1.t, L.args.p2.t, L.seen.t)),
+    ("lines==Tot(seen)", L.lines.t == S.Tot()(L.args.setmap.valarr, L.seen.t)),
 ]))
 d.loop(1, LoopSpec(lambda L: [
-    ("d-not-NaN", z3.Not(fl(L.d).is_nan())),
-    ("d*total==Xo(seen)", fl(L.d).val() * z3.ToReal(L.total.t)
-     == z3.ToReal(S.Xo()(L.args.setmap.valarr, L.args.p1.t, L.args.p2.t, L.seen.t))),
-], kinds={"d": FLOAT}))
+    ("d==Xo(seen)", L.d.t == S.Xo()(L.args.setmap.valarr, L.args.p1.t, L.args.p2.t, L.seen.t)),
+]))
 
 # ------------------------------------------------------- extract_platforms
 e = contract("codebasin.report:extract_platforms", props=["C07", "C14"])
